@@ -194,8 +194,19 @@ def moments_case(job, t0):
     uname, rname, reg, opts = job
     st, real, w = _w(uname, rname)
     word = tuple(opts.get("frame", ()))
-    obj = w.canonical(reg, word)
-    fails = w.compare_moments(obj, reg, word, orders=ORDERS4, what="canonical")
+    if opts.get("via_api"):
+        # history: measure first (warm every cache), then transform in place through the API
+        obj = w.canonical(reg)
+        fails = w.compare_moments(obj, reg, (), orders=ORDERS4[:6], what="before the transformations")
+        float(obj)
+        for g in word:
+            meth, margs, _ = w.gens[g]
+            getattr(obj, meth)(*margs)
+        exact = all(g in world.EXACT_GENS for g in word)
+        fails += w.compare_moments(obj, reg, word, orders=ORDERS4, what="after move/scale/rotate through the API", exact=exact)
+    else:
+        obj = w.canonical(reg, word)
+        fails = w.compare_moments(obj, reg, word, orders=ORDERS4, what="canonical")
     rec = {"reg": reg, "frame": word}
     rp = replay.Replayer(st, real, check_c10=False)
     fails += rp.measure(obj, rec)
@@ -1045,3 +1056,79 @@ def plot_case(job, t0):
     finally:
         pyplot.close("all")
     return _result(uname, rname, "plot:%d" % reg, fails, t0, [["MakeRegion", [1, reg]], ["Plot", [1]]])
+
+
+# ------------------------------------------------------------------ C09 gallery
+GALLERY = {
+    "dip": [[(0, 0), (2, -1)], [(2, -1), (4, 0)], [(4, 0), (4, 4)], [(4, 4), (2, -1), (0, 4)], [(0, 4), (0, 0)]],   # a control point coincides with a vertex
+    "lens": [[(0, 0), (2, -2), (4, 0)], [(4, 0), (2, 2), (0, 0)]],
+    "cap": [[(0, 0), (3, 0)], [(3, 0), (3, 2), (0, 2), (0, 0)]],                                                     # cubic whose last control point value repeats the start
+    "tri": [[(1, 1), (5, 1)], [(5, 1), (1, 4)], [(1, 4), (1, 1)]],
+}
+
+
+def gallery_case(job):
+    """in-place transformations at the level of control points, on hand-made curved shapes
+    (including control points that coincide with vertices): every control point must be
+    mapped exactly once by the affine map of the frame word"""
+    t0 = time.time()
+    name, numtype, word, opts = job
+    try:
+        sp = world.shapepy()
+        conv = {"int": int, "frac": F, "float": float}[numtype]
+        ctrl = [[(conv(x), conv(y)) for x, y in seg] for seg in GALLERY[name]]
+        S = sp.SimpleShape(sp.JordanCurve.from_ctrlpoints(ctrl))
+        J = S.jordans[0]
+        fails = []
+        orig = [[(q[0], q[1]) for q in sg.ctrlpoints] for sg in J.segments]
+        a0 = sp.IntegrateShape.area(S)
+        float(S), (0.5, 0.5) in S                      # warm caches
+        gens = realise.gen_table("frac" if numtype != "float" else "float")
+        T = realise.Affine()
+        exact = numtype != "float"
+        for g in word:
+            meth, margs, aff = gens[g]
+            r = getattr(S, meth)(*margs)
+            if r is not S:
+                fails.append(Failure("C09", "transformation did not return the same object", gen=g, shape=name))
+            T = T.then(aff)
+            exact = exact and g in realise.EXACT_GENS
+            got = [[(q[0], q[1]) for q in sg.ctrlpoints] for sg in J.segments]
+            for sg0, sg1 in zip(orig, got):
+                for p0, p1 in zip(sg0, sg1):
+                    ex = T(F(p0[0]) if not isinstance(p0[0], float) else F(p0[0]), F(p0[1]) if not isinstance(p0[1], float) else F(p0[1]))
+                    if exact:
+                        ok = p1[0] == ex[0] and p1[1] == ex[1] and not isinstance(p1[0], float)
+                    else:
+                        ok = abs(float(p1[0]) - float(ex[0])) + abs(float(p1[1]) - float(ex[1])) <= 1e-9 * (1 + abs(float(ex[0])) + abs(float(ex[1])))
+                    if not ok:
+                        fails.append(Failure("C09", "a control point is not the image of the original under the affine map", shape=name, word=word, upto=g, original=p0, expected=ex, got=p1))
+                        break
+                if fails:
+                    break
+            a1 = sp.IntegrateShape.area(S)
+            exa = F(a0) * T.det() if not isinstance(a0, float) else a0 * float(T.det())
+            if (exact and a1 != exa) or abs(float(a1) - float(exa)) > 1e-9 * max(1.0, abs(float(exa))):
+                fails.append(Failure("C09", "area is not |det T| times the original area", shape=name, word=word, upto=g, expected=exa, got=a1))
+            # every control point object exactly once in `vertices`
+            ids = []
+            for sg in J.segments:
+                for q in sg.ctrlpoints:
+                    if id(q) not in ids:
+                        ids.append(id(q))
+            if [id(v) for v in J.vertices] != ids:
+                fails.append(Failure("C09", "vertices is not each control point object once, in order", shape=name))
+            if fails:
+                break
+        if not fails and T.is_identity():
+            S0 = sp.SimpleShape(sp.JordanCurve.from_ctrlpoints(ctrl))
+            try:
+                eq = S == S0
+            except BaseException as ex:  # noqa
+                eq = repr(ex)
+            if eq is not True:
+                fails.append(Failure("C09", "the inverse transformation did not restore a shape == the original", shape=name, word=word, got=repr(eq)))
+        return {"universe": "gallery", "real": numtype, "case": "g:%s:%s" % (name, "".join(word)), "row": None, "fails": [f.as_dict() for f in fails], "stats": {},
+                "wall": time.time() - t0, "steps": [["from_ctrlpoints", name]] + [["Transform", g] for g in word], "machinery": None}
+    except BaseException:  # noqa
+        return {"universe": "gallery", "real": numtype, "case": "g:%s" % name, "fails": [], "stats": {}, "wall": time.time() - t0, "machinery": traceback.format_exc()}
